@@ -10,7 +10,7 @@ from ..callgraph import CallGraph
 from ..cfg import cfg_of
 from ..model import FunctionInfo, AnalysisError, dotted
 from ..report import Ctx
-from ..util import ordered_args, norm, fn_body_nodes, walk_local, kwarg
+from ..util import lexical_guards, atomic_facts, ordered_args, norm, fn_body_nodes, walk_local, kwarg
 from .. import pat
 from ..pat import Snips
 from .common import arg_permutation_rule, names_in, calls_named
@@ -395,6 +395,15 @@ def rule_behaviour(ctx: Ctx):
         ctx.check(ok, "BEH-1", dis, rets[0], "uniform component weighted by rand_choose", "", "exploration weight is attached to the wrong component")
     else:
         ctx.unknown("BEH-1", dis, dis.node, "exploration mixture", "mixture expression not found")
+    # (written after seed C10-c) every return of the behaviour distribution is the epsilon-mixture, or the greedy/softmax part alone under rand_choose == 0
+    rc_ = dis.positional_params[1]
+    for r_ in [x for x in ast.walk(dis.node) if isinstance(x, ast.Return)]:
+        is_mix = isinstance(r_.value, ast.BinOp) and isinstance(r_.value.op, ast.BitOr)
+        facts = atomic_facts(lexical_guards(dis, r_))
+        no_explore = any(t_ in (f"{rc_} == 0.0", f"{rc_} == 0", f"0.0 == {rc_}", f"0 == {rc_}") and tr for t_, tr in facts) or (rc_, False) in facts
+        ctx.check(is_mix or no_explore, "BEH-1", dis, r_, "a distribution without the uniform exploration part is returned only when rand_choose == 0", str(sorted(facts)),
+                  f"`{norm(r_, 70)}` returns the exploitation part alone although rand_choose may be positive: the distribution used in expected updates "
+                  f"is not the one the sampler draws from")
     SS, SD = Snips(sam), Snips(dis)
     av_s, rc_s, st_s, rng_s = sam.positional_params[:4]
     av_d, rc_d, st_d = dis.positional_params[:3]
